@@ -15,8 +15,18 @@ WhyTable(o, exp, label) ==
     ELSE IF \E j \in 1 .. Len(exp) : o.xyzr[j] # PointVals(o.seq[j]) THEN "coordinates"        \* o.seq: which point (by its x tag) sits in row j
     ELSE IF o.seq # [j \in 1 .. Len(exp) |-> j - 1] THEN "document-order"
     ELSE ""
+WhyDup(o, exp, label, m) ==
+    IF o.err # "" THEN "rejected-a-well-formed-document-" \o o.err
+    ELSE IF Len(o.pid) # Len(exp) THEN "point-count"
+    ELSE IF o.ids # [j \in 1 .. Len(exp) |-> j - 1] THEN "ids-not-in-document-order"
+    ELSE IF o.pid # exp THEN "parents"
+    ELSE IF \E j \in 1 .. Len(exp) : o.ty[j] # TypeOf(label) THEN "types"
+    ELSE IF \E j \in 1 .. Len(exp) : o.xyzr[j] # PointVals((j - 1) % m) THEN "coordinates"
+    ELSE ""
 Why(c, o) ==
-    IF c.var = "big" THEN WhyTable(o, IF c.kind = "chain" THEN ChainExp(c.n) ELSE CombExp(c.n), UpperOf(c.label))
+    IF c.var = "dup" THEN (IF c.run # DupStream(c.toks, c.m) THEN "MACHINERY-rendered-stream-differs-from-the-specified-one"
+                           ELSE WhyDup(o, RefTable(c.toks), RefLabel(c.toks), c.m))
+    ELSE IF c.var = "big" THEN WhyTable(o, IF c.kind = "chain" THEN ChainExp(c.n) ELSE CombExp(c.n), UpperOf(c.label))
     ELSE IF c.run # Stream(c) THEN "MACHINERY-rendered-stream-differs-from-the-specified-one"
     ELSE IF c.var = "complete" THEN WhyTable(o, RefTable(c.toks), RefLabel(c.toks))
     ELSE IF o.err = "" THEN (IF c.var = "prefix" THEN "truncated-document-converted" ELSE "malformed-point-accepted-" \o c.kind)
